@@ -17,7 +17,7 @@ def _c17_ints(s):
 
 def _c17_case(c):
     p = c.split(" ")
-    if p[0] in ("T", "A", "W", "V", "U", "u", "X", "Q"):
+    if p[0] in ("T", "A", "W", "V", "U", "u", "X", "Q", "Y", "y"):
         tok = None
         if p[0] == "Q":
             tok, p = p[-2:], p[:-2]
